@@ -99,6 +99,47 @@ func (p *Prop) Generate(base uint64, index int, env *sim.Env) *sim.Case {
 		}
 		return 1 + pr.Intn(count)
 	}
+	lastDerivedFrom := -1
+	if sp.Other == "" && pr.Pct(12) {
+		// sibling scenario: a parent whose selection was built up step by step, two children
+		// that each add a different page, and every one of the three used afterwards - in any
+		// order. (Configurations shared between relatives show up exactly here.)
+		if sp.Doc.Pages < 5 {
+			sp.Doc.Pages = 5 + pr.Intn(2)
+			count = sp.Doc.Pages
+		}
+		perm := pr.Perm(count)
+		sp.Prog = append(sp.Prog, Call{Op: "open", H: 0})
+		parent := 0
+		nh = 1
+		if pr.Bool() {
+			a := 1 + pr.Intn(count-4)
+			sp.Prog = append(sp.Prog, Call{Op: "derive", H: 0, Kind: "range", A: a, B: a + 2})
+			parent = nh
+			nh++
+			perm = nil
+			for q := 1; q <= count; q++ {
+				if q < a || q > a+2 {
+					perm = append(perm, q-1)
+				}
+			}
+		} else {
+			for k := 0; k < 3; k++ {
+				sp.Prog = append(sp.Prog, Call{Op: "derive", H: parent, Kind: "pages", Pages: []int{perm[k] + 1}})
+				parent = nh
+				nh++
+			}
+			perm = perm[3:]
+		}
+		c1, c2 := nh, nh+1
+		sp.Prog = append(sp.Prog, Call{Op: "derive", H: parent, Kind: "pages", Pages: []int{perm[0] + 1}},
+			Call{Op: "derive", H: parent, Kind: "pages", Pages: []int{perm[1] + 1}})
+		nh += 2
+		for _, h := range []int{c1, parent, c2} {
+			sp.Prog = append(sp.Prog, Call{Op: sim.Pick(pr, []string{"text", "frags", "doc", "chunks"}), H: h})
+		}
+		n = pr.Intn(6)
+	}
 	for i := 0; i < n; i++ {
 		if nh == 0 || (nh < 4 && pr.Pct(10)) {
 			op := "open"
@@ -110,6 +151,12 @@ func (p *Prop) Generate(base uint64, index int, env *sim.Env) *sim.Case {
 			continue
 		}
 		h := pr.Intn(nh)
+		if lastDerivedFrom >= 0 && pr.Pct(35) {
+			h = lastDerivedFrom // a sibling from the same parent, or a longer chain
+			if pr.Bool() {
+				h = nh - 1
+			}
+		}
 		switch x := pr.Intn(100); {
 		case x < 35 && nh < 8:
 			cl := Call{Op: "derive", H: h, Kind: sim.Pick(pr, deriveKinds)}
@@ -129,6 +176,7 @@ func (p *Prop) Generate(base uint64, index int, env *sim.Env) *sim.Case {
 				}
 			}
 			sp.Prog = append(sp.Prog, cl)
+			lastDerivedFrom = h
 			nh++
 		case x < 50:
 			sp.Prog = append(sp.Prog, Call{Op: sim.Pick(pr, []string{"count", "count", "multicol", "charlevel"}), H: h})
@@ -136,6 +184,13 @@ func (p *Prop) Generate(base uint64, index int, env *sim.Env) *sim.Case {
 			sp.Prog = append(sp.Prog, Call{Op: sim.Pick(pr, terminalOps), H: h})
 		default:
 			sp.Prog = append(sp.Prog, Call{Op: "close", H: h})
+		}
+	}
+	// final sweep: every handle is used once more, so that what happened to its relatives
+	// in the meantime is observed
+	for h := 0; h < nh; h++ {
+		if pr.Pct(70) {
+			sp.Prog = append(sp.Prog, Call{Op: sim.Pick(pr, []string{"text", "text", "frags", "doc"}), H: h})
 		}
 	}
 	c.SetSpec(sp)
